@@ -467,28 +467,37 @@ Definition on_event (ev : event) (s : st) : st * list cb * bool :=
   end.
 
 (* ---- on_heartbeat_check_timeouts ---- *)
+(* inter-service time-out *)
+Definition hc_service (c : config) (t : Z) (s : st) : st * list cb * bool :=
+  if t_work s + c_tis c <? t
+  then let '(s', cbs, hang) := close_all s in (s', cbs ++ [CbErr EServiceTimeout], hang)
+  else (s, [], false).
+(* driver keep-alive *)
+Definition hc_driver (c : config) (t : Z) (s : st) : st * list cb :=
+  if (0 <=? driver_hb s) && (driver_hb s + c_tdrv c <? t)
+  then (set_driver_active false s, [CbErr EWasInactive]) else (s, []).
+(* the client's own heartbeat counter *)
+Definition hc_heartbeat (s : st) : st * list cb * bool :=
+  if hb_bound s
+  then if hb_env s =? 1 then (s, [], false)
+       else let '(sc, cbs, hang) := close_all s in (sc, cbs ++ [CbErr EHeartbeatLost], hang)
+  else if hb_env s =? 1 then (set_hb_bound true s, [], false) else (s, [], false).
+Definition hc_keepalive (c : config) (t : Z) (s : st) : st * list cb * bool * bool :=
+  if t_keep s + KEEPALIVE_TIMEOUT_MS <? t
+  then let '(s', cbs') := hc_driver c t s in
+       let '(s'', cbs'', hang'') := hc_heartbeat s' in
+       (set_t_keep t s'', cbs' ++ cbs'', hang'', true)
+  else (s, [], false, false).
+(* on_check_managed_resources: log buffers and lingering images are property C12's *)
+Definition hc_resources (t : Z) (s : st) : st * bool :=
+  if t_res s + RESOURCE_TIMEOUT_MS <? t then (set_t_res t s, true) else (s, false).
+
 Definition heartbeat_check (c : config) (s : st) : st * list cb * bool * bool (* hang, result *) :=
   let t := now s in
-  let '(s1, cbs1, hang1) :=
-    if t_work s + c_tis c <? t
-    then let '(s', cbs, hang) := close_all s in (s', cbs ++ [CbErr EServiceTimeout], hang)
-    else (s, [], false) in
+  let '(s1, cbs1, hang1) := hc_service c t s in
   let s2 := set_t_work t s1 in
-  let '(s3, cbs3, hang3, r3) :=
-    if t_keep s2 + KEEPALIVE_TIMEOUT_MS <? t
-    then
-      let '(s', cbs') :=
-        if (0 <=? driver_hb s2) && (driver_hb s2 + c_tdrv c <? t)
-        then (set_driver_active false s2, [CbErr EWasInactive]) else (s2, []) in
-      let '(s'', cbs'', hang'') :=
-        if hb_bound s'
-        then if hb_env s' =? 1 then (s', [], false)
-             else let '(sc, cbs, hang) := close_all s' in (sc, cbs ++ [CbErr EHeartbeatLost], hang)
-        else if hb_env s' =? 1 then (set_hb_bound true s', [], false) else (s', [], false) in
-      (set_t_keep t s'', cbs' ++ cbs'', hang'', true)
-    else (s2, [], false, false) in
-  let '(s4, r4) :=
-    if t_res s3 + RESOURCE_TIMEOUT_MS <? t then (set_t_res t s3, true) else (s3, false) in
+  let '(s3, cbs3, hang3, r3) := hc_keepalive c t s2 in
+  let '(s4, r4) := hc_resources t s3 in
   (s4, cbs1 ++ cbs3, hang1 || hang3, r3 || r4).
 
 (* ---- Agent::do_work ---- *)
